@@ -3,6 +3,8 @@
    earlier runs), ALL interleavings of those leftovers, schedules and fuels. *)
 From stdpp Require Import gmap.
 Require Import Grits.Base Grits.Runtime Grits.Host Grits.proofs.HostProofs.
+Require Import Grits.GlobalsDefs Grits.gen.Globals Grits.GlobalsDiscipline Grits.proofs.GlobalsProofs
+               Grits.HostGlobals Grits.proofs.HostGlobalsProofs.
 
 Theorem C19_isolated : forall pick fuel h hist i ws,
   nth_error hist i = Some ws ->
@@ -25,6 +27,94 @@ Example C19_example :
   = [ORan ["one"]; OReject; OParseErr; ORan ["one"]].
 Proof. vm_compute. reflexivity. Qed.
 
+(* ---- package-level state.  gen/Globals.v is REGENERATED from the Go source on every run (go/ast +
+   go/types: every package-level var of every package, every use of one classified URead /
+   UIndexRead / UWrite / UEscape).  The host of HostGlobals carries a store of package-level
+   variables that runs (and leftover goroutines) may read and may update only through mutating rows
+   of the table; all that is assumed of the pipeline is that it is the model when started from the
+   initial store. *)
+
+(* no package-level variable of a pipeline package is mutable state (finite; by computation) *)
+Theorem C19_globals_immutable : globals_immutable_b = true.
+Proof. exact globals_immutable. Qed.
+
+Theorem C19_pipeline_vars_only_read : forall u,
+  In u global_uses -> is_pipeline_pkg (u_vpkg u) = true -> init_context u = false ->
+  u_kind u = URead \/ u_kind u = UIndexRead.
+Proof. exact pipeline_vars_only_read. Qed.
+
+Theorem C19_pipeline_fns_only_read_extern : forall u,
+  In u extern_uses -> is_pipeline_pkg (u_fpkg u) = true -> init_context u = false ->
+  u_kind u = URead \/ u_kind u = UIndexRead.
+Proof. exact pipeline_fns_only_read_extern. Qed.
+
+Theorem C19_pipeline_fns_use_no_foreign_var : forall u,
+  In u global_uses -> is_pipeline_pkg (u_fpkg u) = true -> is_pipeline_pkg (u_vpkg u) = true.
+Proof. exact pipeline_fns_use_no_foreign_var. Qed.
+
+(* isolation of a host WITH package-level state, for any table of uses that satisfies the discipline *)
+Theorem C19_isolated_if_table_immutable : forall (V : Type) (tbl : list guse),
+  table_immutable tbl = true ->
+  forall pick fuel (pipe : string -> gprog V (outcome1 * list leftover)) (left : list nat -> gprog V unit) (st0 : gstore V),
+  (forall s, permitted tbl (pipe s)) -> (forall w, permitted tbl (left w)) ->
+  (forall s, fst (gexec st0 (pipe s)) = run_alone pick fuel s) ->
+  forall h hist i ws, nth_error hist i = Some ws ->
+  nth_error (fst (ghost_runs pipe left (h, st0) hist)) i = Some (fst (host_run pick fuel [] fresh_host (snd ws))).
+Proof. exact @isolated_if_table_immutable. Qed.
+
+(* ... and for the table of the code as it is now, the premise being discharged by C19_globals_immutable *)
+Theorem C19_isolated_globals : forall (V : Type) pick fuel
+    (pipe : string -> gprog V (outcome1 * list leftover)) (left : list nat -> gprog V unit) (st0 : gstore V),
+  (forall s, permitted pipeline_uses (pipe s)) -> (forall w, permitted pipeline_uses (left w)) ->
+  (forall s, fst (gexec st0 (pipe s)) = run_alone pick fuel s) ->
+  forall h hist i ws, nth_error hist i = Some ws ->
+  nth_error (fst (ghost_runs pipe left (h, st0) hist)) i = Some (fst (host_run pick fuel [] fresh_host (snd ws))).
+Proof. exact @isolated_globals. Qed.
+
+Theorem C19_globals_store_never_changes : forall (V : Type) pick fuel
+    (pipe : string -> gprog V (outcome1 * list leftover)) (left : list nat -> gprog V unit) (st0 : gstore V),
+  (forall s, permitted pipeline_uses (pipe s)) -> (forall w, permitted pipeline_uses (left w)) ->
+  (forall s, fst (gexec st0 (pipe s)) = run_alone pick fuel s) ->
+  forall h hist,
+  ghost_runs pipe left (h, st0) hist = (fst (host_runs pick fuel h hist), (snd (host_runs pick fuel h hist), st0)).
+Proof. exact @globals_store_never_changes. Qed.
+
+(* non-vacuity of the table: the variables one expects are there, with the kinds and uses one expects *)
+Example C19_table_contents :
+  In (mkGvar "types" "PolarityMap" "map[Polarity]string" GMap IComposite true) globals /\
+  In (mkGvar "process" "RuleString" "map[Rule]string" GMap IComposite true) globals /\
+  In (mkGvar "parser" "gritsDebug" "int" GScalar ILiteral true) globals /\
+  In (mkGvar "parser" "gritsErrorVerbose" "bool" GScalar IIdent true) globals /\
+  (forall t, In t ["gritsExca"; "gritsAct"; "gritsPact"; "gritsPgo"; "gritsR1"; "gritsR2"; "gritsChk"; "gritsDef";
+                   "gritsTok1"; "gritsTok2"; "gritsTok3"; "gritsToknames"] ->
+     existsb (fun g => String.eqb (g_pkg g) "parser" && String.eqb (g_name g) t &&
+                       match g_kind g with GArray => true | _ => false end) globals = true /\
+     existsb (fun u => String.eqb (u_var u) t && match u_kind u with UIndexRead => true | _ => false end) global_uses = true) /\
+  existsb (fun u => String.eqb (u_var u) "PolarityMap" && String.eqb (u_fn u) "Name.String" &&
+                    match u_kind u with UIndexRead => true | _ => false end) global_uses = true /\
+  20 <= length pipeline_globals /\ 50 <= length pipeline_uses.
+Proof. exact table_contents. Qed.
+
+(* non-vacuity of the premise: with the one UWrite row of a memo table (seeded change C19-1) there is a
+   permitted pipeline that is the model in every fresh process and is NOT isolated *)
+Example C19_isolation_needs_immutable_globals :
+  table_immutable memo_tbl = false /\
+  (forall pick fuel s, permitted memo_tbl (memo_pipe pick fuel s)) /\
+  (forall pick fuel s, fst (gexec (fun _ => 0) (memo_pipe pick fuel s)) = run_alone pick fuel s) /\
+  let pick := fun _ _ => 0 in
+  let prog := "prc[a] : 1 = print one; close self" in
+  fst (ghost_runs (memo_pipe pick 1000) (fun _ => GRet tt) (fresh_host, fun _ => 0) [([], prog); ([], prog)])
+  = [ORan ["one"]; OReject]
+  /\ fst (host_run pick 1000 [] fresh_host prog) = ORan ["one"].
+Proof. exact memo_counterexample. Qed.
+
 Print Assumptions C19_isolated.
 Print Assumptions C19_host_output.
 Print Assumptions C19_leftover_prints_nothing.
+Print Assumptions C19_globals_immutable.
+Print Assumptions C19_pipeline_vars_only_read.
+Print Assumptions C19_pipeline_fns_only_read_extern.
+Print Assumptions C19_pipeline_fns_use_no_foreign_var.
+Print Assumptions C19_isolated_if_table_immutable.
+Print Assumptions C19_isolated_globals.
+Print Assumptions C19_globals_store_never_changes.
